@@ -21,7 +21,7 @@ pub fn domain_ok(spec: &Spec) -> bool {
       let t = inner.model_text();
       let b = boundaries(&t);
       for op in ops {
-        if op.start > op.end {
+        if op.start > op.end && !crate::gen::ALLOW_REVERSED.load(std::sync::atomic::Ordering::Relaxed) {
           ok = false;
         }
         for p in [op.start as usize, op.end as usize] {
